@@ -312,6 +312,35 @@ def corpus_cases(acc, part, parts, nlayouts, seed):
                                     file=name), r[2])
 
 
+def bulk_gaps(acc, d):
+    """One gap that holds very much: 1200 / 3000 comments in a row (a commented-out
+    table, a licence header of '#' lines), 20 000 blanks or line ends, one 100 kB comment
+    - before the first statement, between statements, inside a sequence and a group."""
+    from vlib.dialects import HASH_COMMENT
+    frames = [("{g}a = 1 b = 2 END", "a = 1 b = 2 END"),
+              ("a = 1{g}b = 2 END", "a = 1 b = 2 END"),
+              ("a = (1,{g}2) END", "a = (1, 2) END"),
+              ("GROUP = g{g}x = 1 END_GROUP END", "GROUP = g x = 1 END_GROUP END"),
+              ("a ={g}1 END", "a = 1 END")]
+    for d in [d]:
+        gaps = [" /* c */\n" * 1200, "/* c */" * 3000 + " ", " " * 20000, "\r\n" * 20000,
+                " /*" + " x" * 50000 + "*/ ", " /* a */ \t" * 1500]
+        if d in HASH_COMMENT:
+            gaps += [" # c\n" * 1200, "\n#\n" * 3000]
+        for frame, canonical in frames:
+            for g in gaps:
+                if acc.expired():
+                    acc.notes["budget_exhausted"] = 1
+                    return
+                case = dict(dialect=d, texts=[canonical, frame.replace("{g}", g)],
+                            ntokens=8)
+                r = run_case(case)
+                acc.event(f"bulk:{d}:{r[0]}")
+                acc.case(key=d + frame + str(len(g)) + g[:12], nontrivial=True)
+                if r[0] == "fail":
+                    acc.fail(r[1], case, r[2][:600])
+
+
 def shards(tier, seed):
     n = 260 if tier == "quick" else 7000
     out = [("random_cases", dict(d=PARSERS[j % 6], n=n, seed=seed * 1000 + j))
@@ -321,7 +350,7 @@ def shards(tier, seed):
     corpus = [("corpus_cases", dict(part=part, parts=8, seed=seed,
                                     nlayouts=3 if tier == "quick" else 150))
               for part in range(8)]
-    return corpus + out
+    return [("bulk_gaps", dict(d=d)) for d in PARSERS] + corpus + out
 
 
 def replay(case):
